@@ -78,3 +78,17 @@ Definition narrow_join_prog : prog :=
       (SSeq (SExpr (EReveal 0 (EVar 2)))
       (SReturn (EInt (0)%Z))))))))); f_line := 0 |})] |}.
 
+
+(* hand-written: a class with a method, a constructor + method call, and a while loop with narrowing *)
+Definition loop_class_prog : prog :=
+  {| p_classes := [(1, {| c_mro := [1]; c_fields := [(1, TInt)];
+                          c_methods := [(1, {| f_params := []; f_ret := TInt;
+                                               f_body := SReturn (EAttr (EVar 0) 1); f_line := 0 |})];
+                          c_line := 0 |})];
+     p_funcs := [(1, {| f_params := [(1, TUnion [TInt; TNone])]; f_ret := TInt; f_body :=
+        SSeq (SDecl 2 TInt (EInt 0%Z))
+       (SSeq (SWhile (EBin BLt (EVar 2) (EInt 3%Z))
+                (SSeq (SAssign 2 (EBin BAdd (EVar 2) (EInt 1%Z)))
+                      (SIf (EIsNone (EVar 1)) (SAssign 1 (ECallM (ENew 1 [EVar 2]) 1 [])) SPass)))
+             (SReturn (ECond (EIsNone (EVar 1)) (EInt 0%Z) (EVar 1))));
+        f_line := 0 |})] |}.
